@@ -7,7 +7,7 @@
    conditions (the modified matrix factorises, 1 + v.z <> 0).
    PARTIAL: floating-point backward stability is covered by the exact-rational correspondence (K-solve), not by a theorem. *)
 From Coq Require Import List ZArith Bool Reals.
-From GMGP Require Import Scalar ScalarR TridiagDefs TridiagProofs TridiagCyclic TridiagSPD TridiagCyclicSPD.
+From GMGP Require Import Scalar ScalarR TridiagDefs TridiagProofs TridiagCyclic TridiagSPD TridiagCyclicSPD TridiagCyclicDom.
 Import ListNotations.
 Local Open Scope R_scope.
 
@@ -71,6 +71,16 @@ Theorem C14_spd_cyclic_solve_correct : forall d0 ds ss c b0 bs,
   @matvec_cyc Rsc (d0 :: ds) ss c (@solve_cyc Rsc (d0 :: ds) ss c (b0 :: bs)) = b0 :: bs.
 Proof. exact spd_cyclic_solve_correct. Qed.
 
+(* "in particular every strictly diagonally dominant" cyclic system: row-wise strict dominance (|s_{i-1}| + |s_i| < d_i, the corner counting
+   in rows 0 and n-1, zero sub-diagonals and corners of either sign allowed) implies positive definiteness, for every n >= 2 *)
+Theorem C14_dominant_cyclic_is_spd : forall d0 ds ss c, ds <> [] -> length ss = length ds ->
+  cdom (Rabs c) (Rabs c) d0 ds ss -> spd_cyc d0 ds ss c.
+Proof. exact dominant_cyclic_is_spd. Qed.
+Theorem C14_dominant_cyclic_solve_correct : forall d0 ds ss c b0 bs,
+  ds <> [] -> length ss = length ds -> length bs = length ds -> cdom (Rabs c) (Rabs c) d0 ds ss ->
+  @matvec_cyc Rsc (d0 :: ds) ss c (@solve_cyc Rsc (d0 :: ds) ss c (b0 :: bs)) = b0 :: bs.
+Proof. exact dominant_cyclic_solve_correct. Qed.
+
 (* repeated solves with the same object and right-hand side return identical results (bit for bit:
    no law of arithmetic is used), the first solve included *)
 Theorem C14_repeated_solves_identical : forall (S : Sc) (t : @tri S) (b : list S),
@@ -86,3 +96,4 @@ Print Assumptions C14_repeated_solves_identical.
 Print Assumptions C14_cyclic_solve_correct.
 Print Assumptions C14_spd_solve_correct.
 Print Assumptions C14_spd_cyclic_solve_correct.
+Print Assumptions C14_dominant_cyclic_solve_correct.
